@@ -48,10 +48,11 @@ type specStep struct {
 }
 
 type layoutCase struct {
-	ID    int        `json:"id"`
-	Seed  int64      `json:"seed"`
-	Hist  []specStep `json:"hist"`
-	Crash bool       `json:"crash"` // C03: freeze a crash image after every fs mutation of each reorganisation
+	ID       int        `json:"id"`
+	Seed     int64      `json:"seed"`
+	Hist     []specStep `json:"hist"`
+	Crash    bool       `json:"crash"`     // C03: freeze a crash image after every fs mutation of each reorganisation
+	NoSettle bool       `json:"no_settle"` // do not wait for background loads (directed reproduction of F-C04-1)
 }
 
 type caseResult struct {
@@ -423,6 +424,7 @@ func runLayoutCase(lc *layoutCase, root string) (res caseResult) {
 		os.RemoveAll(dir)
 	}()
 	setSmallCompactionGroups()
+	e.NoSettle = lc.NoSettle
 	tmin, tmax := timeBase-timeStep, timeBase+100*timeStep
 	seen := map[string]bool{}
 	wm := newWalModel(opts.WalParts)
@@ -674,6 +676,7 @@ func runLayoutCase(lc *layoutCase, root string) (res caseResult) {
 				return
 			}
 			setSmallCompactionGroups()
+			e.NoSettle = lc.NoSettle
 			pred := wm.restartPrediction()
 			wm = newWalModel(opts.WalParts)
 			wm.flushed = pred
@@ -734,6 +737,10 @@ func runLayoutCase(lc *layoutCase, root string) (res caseResult) {
 					types = append(types, fmt.Sprintf("%s:%d", f, conc.fields[f].typ))
 				}
 				res.Detail = fmt.Sprintf("after step %d (%s) walparts=%d seg=%d types=%v: %s", i, st.A, opts.WalParts, opts.MaxRowsPerSegment, types, d)
+				if lc.NoSettle && strings.Contains(d, "not strictly sorted") && orderedFilesOverlap(e) {
+					res.OK = true
+					res.Known = "F-C04-1"
+				}
 				return
 			}
 		}
